@@ -246,9 +246,10 @@ class Out:
                 val = helper.uri(val)
             elif 'HASH' == type_:
                 val = self.ser._hash(val)
-            elif hasattr(val, 'cssText'):
+            elif hasattr(type(val), 'cssText'):
+                # test the class: cssText is a computed property
                 val = val.cssText
-            elif hasattr(val, 'mediaText'):
+            elif hasattr(type(val), 'mediaText'):
                 val = val.mediaText
             elif val in '+>~,:{;)]/=}' and not alwaysS:
                 self._remove_last_if_S()
@@ -1032,7 +1033,7 @@ class CSSSerializer:
                 type_, val = item.type, item.value
                 if valuesOnly and type_ == cssutils.css.CSSComment:
                     continue
-                elif hasattr(val, 'cssText'):
+                elif hasattr(type(val), 'cssText'):
                     # RGBColor or CSSValue if a CSSValueList
                     out.append(val.cssText, type_)
                 else:
@@ -1132,7 +1133,7 @@ class CSSSerializer:
 
                 if valuesOnly and type_ == cssutils.css.CSSComment:
                     continue
-                elif hasattr(val, 'cssText'):
+                elif hasattr(type(val), 'cssText'):
                     # RGBColor or CSSValue if a CSSValueList
                     out.append(val.cssText, type_)
                 elif type_ == 'CHAR' and val in '-+*/':
